@@ -116,6 +116,11 @@ fn vouched_type(alg: &str, t: Option<&str>) -> bool {
     }
 }
 
+/// a documented spelling of the signature type of ANOTHER signing algorithm: answering it would mislabel the signature
+fn foreign_type(alg: &str, t: Option<&str>) -> bool {
+    t.is_some() && !vouched_type(alg, t) && ["ed25519", "p256", "k256", "p384"].iter().any(|a| *a != alg && vouched_type(a, t))
+}
+
 // ---------------------------------------------------------------------------------------------------------------------
 // executor
 
@@ -192,6 +197,7 @@ fn do_sign(cx: &mut Ctx, keys: &[K], i: usize, msg: &[u8], t: &Option<String>) -
                 _ => cx.fail(format!("sign:wrong-length:{}:{}", k.alg, s1.len()), json!({"msg": hex::encode(msg)})),
             }
             if !k.has_secret { cx.fail(format!("sign:ok-without-secret:{}", k.alg), json!({})); }
+            if foreign_type(&k.alg, t.as_deref()) { cx.fail(format!("sign:err->ok:foreign-type:{}", k.alg), json!({"t": t})); }
             // the signature verifies under the signing key itself, with the same type argument
             match k.key.verify_signature(msg, &s1, t.as_deref()) {
                 Ok(true) => {}
@@ -314,6 +320,7 @@ fn run_op(cx: &mut Ctx, keys: &[K], op: &Value) -> Value {
     let r = keys[i].key.verify_signature(&msg, &sig, t.as_deref());
     let alg = keys[i].alg.clone();
     let ctx = || json!({"alg": alg, "msg": hex::encode(&msg), "sig": hex::encode(&sig), "t": t, "op": op});
+    if r.is_ok() && foreign_type(&alg, t.as_deref()) { cx.fail(format!("verify:err->ok:foreign-type:{}", alg), json!({"t": t})); }
     match &r {
         Ok(true) => {
             cx.bump("verify_true");
